@@ -13,6 +13,7 @@ import (
 
 // Run is one controlled execution of a scenario.
 type RunResult struct {
+	Decision  []bool // coarse mode: whether step k was a real decision point (an operation boundary)
 	Outcome   string
 	Choices   []int    // chosen goroutine at each decision
 	EnabledAt [][]int  // enabled goroutines at each decision
@@ -29,6 +30,12 @@ const maxSteps = 20000
 
 // execute runs the scenario following prefix, then the default policy (stay on the current goroutine,
 // else the lowest enabled one), or random choices when rng != nil.
+// stick is the probability (percent) that a random run stays on the current goroutine
+var stick = 0
+
+// coarse: schedule only at operation boundaries (label "op"), when the current goroutine blocks or finishes
+var coarse = false
+
 func execute(sc Scenario, prefix []int, rng *rand.Rand) *RunResult {
 	threads, collect := sc()
 	vs := mercure.VSchedNew()
@@ -52,8 +59,9 @@ func execute(sc Scenario, prefix []int, rng *rand.Rand) *RunResult {
 				break
 			}
 			if stuck > 0 {
-				vs.WaitStuck(200 * time.Millisecond)
-				if len(vs.Enabled()) > 0 {
+				// goroutines blocked in uninstrumented code (bbolt, sync.Once, a channel): give them a chance to arrive
+				vs.WaitStuck(100 * time.Millisecond)
+				if _, stuck2 := vs.Live(); stuck2 < stuck {
 					disabled = map[int]bool{}
 					continue
 				}
@@ -63,17 +71,29 @@ func execute(sc Scenario, prefix []int, rng *rand.Rand) *RunResult {
 		}
 		var choice int
 		k := len(res.Choices)
+		decision := true
+		if coarse && contains(enabled, cur) && vs.Label(cur) != "op" {
+			decision = false
+		}
 		switch {
 		case k < len(prefix) && contains(enabled, prefix[k]):
 			choice = prefix[k]
+		case !decision:
+			choice = cur
 		case rng != nil:
-			choice = enabled[rng.Intn(len(enabled))]
+			// sticky random: mostly run to the next blocking point, switch at random places
+			if contains(enabled, cur) && rng.Intn(100) < stick {
+				choice = cur
+			} else {
+				choice = enabled[rng.Intn(len(enabled))]
+			}
 		case contains(enabled, cur):
 			choice = cur
 		default:
 			choice = enabled[0]
 		}
 		res.Choices = append(res.Choices, choice)
+		res.Decision = append(res.Decision, decision)
 		res.EnabledAt = append(res.EnabledAt, enabled)
 		res.Labels = append(res.Labels, vs.Label(choice))
 		progressed := vs.Step(choice)
@@ -120,15 +140,19 @@ func preemptions(choices []int, enabledAt [][]int) int {
 
 // Exploration collects distinct outcomes with one witness schedule each.
 type Exploration struct {
-	Outcomes  map[string]*RunResult
-	Schedules int
-	Exhausted bool // the bounded space was enumerated completely
+	CoarseRuns      int
+	CoarseExhausted bool
+	Outcomes        map[string]*RunResult
+	Schedules       int
+	Exhausted       bool // the bounded space was enumerated completely
 }
 
 // explore enumerates every schedule with at most `bound` preemptions (up to maxRuns executions),
 // then adds `random` uniformly random schedules.
 func explore(sc Scenario, bound, maxRuns, random int, seed int64) *Exploration {
 	ex := &Exploration{Outcomes: map[string]*RunResult{}}
+	started := time.Now()
+	budget := 8 * time.Second
 	record := func(r *RunResult) {
 		ex.Schedules++
 		if _, ok := ex.Outcomes[r.Outcome]; !ok {
@@ -136,6 +160,44 @@ func explore(sc Scenario, bound, maxRuns, random int, seed int64) *Exploration {
 		}
 	}
 	type item struct{ prefix []int }
+	// phase A: every interleaving at operation granularity (each API call runs until it returns or blocks)
+	coarse = true
+	{
+		stack := []item{{nil}}
+		seen := map[string]bool{}
+		for len(stack) > 0 && ex.Schedules < maxRuns {
+			it := stack[len(stack)-1]
+			stack = stack[:len(stack)-1]
+			r := execute(sc, it.prefix, nil)
+			record(r)
+			if r.Deadlock || len(r.Panics) > 0 || time.Since(started) > budget {
+				coarse = false
+				ex.Exhausted = false
+				return ex
+			}
+			for k := len(it.prefix); k < len(r.Choices); k++ {
+				if !r.Decision[k] {
+					continue
+				}
+				for _, alt := range r.EnabledAt[k] {
+					if alt == r.Choices[k] {
+						continue
+					}
+					np := append(append([]int{}, r.Choices[:k]...), alt)
+					key := fmt.Sprint(np)
+					if !seen[key] {
+						seen[key] = true
+						stack = append(stack, item{np})
+					}
+				}
+			}
+		}
+		ex.CoarseRuns = ex.Schedules
+		ex.CoarseExhausted = len(stack) == 0
+	}
+	coarse = false
+	maxRuns += ex.Schedules
+	// phase B: statement granularity, bounded preemptions
 	stack := []item{{nil}}
 	seen := map[string]bool{}
 	ex.Exhausted = true
